@@ -17,7 +17,7 @@ import metric_learn as ml
 
 PID = 'C11'
 LEVEL = 'model_checking'
-RULE = ('ITML x prior {identity, covariance, random, SPD array} x gamma {0.1, 1, 10, 1000} x bounds {default, explicit floats, the '
+RULE = ('ITML x prior {identity, covariance, random, SPD array in C and in Fortran order} x gamma {0.1, 1, 10, 1000} x bounds {default, explicit floats, the '
         'same as integers, loose (prior already feasible)} x budgets max_iter = 1..K (K = 6 quick / 20 thorough) + a converged run '
         '(tol = 1e-12) x datasets, each also as a second fit of the same object; ITML_Supervised x prior x seeds; '
         'state = (configuration, budget); non-trivial = at least one multiplier is non-zero')
@@ -26,7 +26,7 @@ ASSUMPTIONS = ['Multipliers and slack-adjusted bounds are read from the solver f
                'Identity residual tolerance 1e-8 x ||M^-1|| (measured <= 5e-12 on the unchanged tree) on states whose dual scale '
                'growth max(lambda) max||v||^2 / ||M0^-1|| is <= 1e6; complementary slackness tolerance 1e-6 relative at tol = 1e-12.']
 BOUNDS = {'quick': dict(K=6, datasets=['S2', 'S3u', 'S5']), 'thorough': dict(K=20, datasets=list(data.THOROUGH))}
-PRIORS = ['identity', 'covariance', 'random', 'array']
+PRIORS = ['identity', 'covariance', 'random', 'array', 'array_F']      # array_F: the same SPD array, Fortran-ordered
 GAMMAS = [0.1, 1.0, 10.0, 1000.0]
 CODE = ml.itml._BaseITML._fit.__code__
 
@@ -137,7 +137,7 @@ def run_case(spec):
     else:
         ds = data.dataset('R', seed) if dsn == 'R' else data.dataset(dsn)
     d = ds.d
-    prv = data.spd(d) if pr == 'array' else pr
+    prv = data.spd(d) if pr == 'array' else (np.asfortranarray(data.spd(d)) if pr == 'array_F' else pr)
     if dsn.endswith('*2^-30') and pr == 'array':
         prv = data.spd(d) * 2.0 ** 60       # an SPD prior on the scale of the inverse covariance
     if kind == 'itml':
